@@ -671,6 +671,20 @@ def _compare(obs, name, got, sdims, want_keys, want_vals, want_valid, want_modes
         f"result has {len(gk)} rows for {len(want_keys)} samples ({int(np.sum(want_valid))} non-missing)",
         tags=dict(tags, symptom=sym_labels),
     )
+    if gk and want_keys and len(gk[0]) > 1 and len(want_keys[0]) == len(gk[0]):
+        # several sample dims / levels: unstacking may fill a grid with all-NaN cells, but along every single
+        # dimension the result may only carry labels that occur in the transformed data
+        foreign = {}
+        for j in range(len(gk[0])):
+            f_ = sorted({kk[j] for kk in gk} - {kk[j] for kk in want_keys}, key=str)
+            if f_:
+                foreign[j] = f_[:4]
+        ok_labels = obs.check(
+            "labels_per_dim",
+            not foreign,
+            f"result carries labels along sample dim(s) {sorted(foreign)} that the transformed data does not have: {foreign}",
+            tags=dict(tags, symptom=sym_labels, per_dim=True),
+        ) and ok_labels
     on_want = np.full((len(want_keys), k), np.nan, dtype=np.result_type(gv.dtype, float if want_vals is None else want_vals.dtype, float))
     for g, w in pairs:
         on_want[w] = gv[g]
